@@ -55,6 +55,28 @@ pub fn get_user_home() -> String {
     }
 }
 
+/// The brace pass, the `$(...)` pass and the calculator call themselves once
+/// per level of nesting; text nested deeper than this is not handed to them.
+pub const MAX_NESTING: usize = 100;
+
+/// How deep `open` .. `close` pairs are nested in `text` at most (an `open`
+/// that is never closed counts as a level, too).
+pub fn nesting_depth(text: &str, open: char, close: char) -> usize {
+    let mut depth: usize = 0;
+    let mut deepest: usize = 0;
+    for c in text.chars() {
+        if c == open {
+            depth += 1;
+            if depth > deepest {
+                deepest = depth;
+            }
+        } else if c == close && depth > 0 {
+            depth -= 1;
+        }
+    }
+    deepest
+}
+
 pub fn get_config_dir() -> String {
     if let Ok(x) = env::var("XDG_CONFIG_HOME") {
         format!("{}/cicada", x)
